@@ -113,18 +113,19 @@ def solve(kind, h0, h, chol, na, nb, C0, damp=0.0, iters=30):
     return [Ca, Cb], energy_u(h0, h, chol, Ca @ Ca.T, Cb @ Cb.T), res, gap
 
 
-def lib_optimize(kind, norb, na, nb, h0, h, chol, C0, n_iter=30):
+def lib_optimize(kind, norb, na, nb, h0, h, chol, C0, n_iter=30, extra_wave_data=None):
     import jax.numpy as jnp
 
     from ad_afqmc import wavefunctions
 
     hd = {"h0": jnp.array(h0), "h1": jnp.array(h), "chol": jnp.array(chol.reshape(len(chol), -1))}
+    extra = dict(extra_wave_data or {})
     if kind == "rhf":
         t = wavefunctions.rhf(norb, (na, nb), n_opt_iter=n_iter)
-        out = t.optimize(hd, {"mo_coeff": jnp.array(C0)})["mo_coeff"]
+        out = t.optimize(hd, dict(extra, mo_coeff=jnp.array(C0)))["mo_coeff"]
         return np.asarray(out)
     t = wavefunctions.uhf(norb, (na, nb), n_opt_iter=n_iter)
-    out = t.optimize(hd, {"mo_coeff": [jnp.array(C0[0]), jnp.array(C0[1])]})["mo_coeff"]
+    out = t.optimize(hd, dict(extra, mo_coeff=[jnp.array(C0[0]), jnp.array(C0[1])]))["mo_coeff"]
     return [np.asarray(out[0]), np.asarray(out[1])]
 
 
@@ -187,6 +188,17 @@ def judge_problem(kind, norb, na, nb, h0, h, chol, rng, key, events, cnt):
         d = max(float(np.linalg.norm(a - b)) for a, b in zip(proj(kind, outs["exact"]), proj(kind, Cs)))
         events.append(judge("scf/fixed-point-unchanged", d, 1e-8, key + "/fixed-point", gap=float(gap)))
         cnt["fixed_point"] += 1
+        # the orbitals define the trial: an auxiliary wave_data["rdm1"] (mean-field shift / fallback observable, may come from anywhere)
+        # must not leak into the SCF, however few iterations are asked for
+        import jax.numpy as jnp
+
+        foreign = rng.normal(size=(2, norb, norb)) * 0.5
+        foreign = (foreign + foreign.transpose(0, 2, 1)) / 2 + np.eye(norb) * 0.5
+        for n_it in (1, 3, 30):
+            out_f = lib_optimize(kind, norb, na, nb, h0, h, chol, Cs, n_iter=n_it, extra_wave_data={"rdm1": jnp.array(foreign)})
+            cnt["optimize_calls"] += 1
+            d_f = max(float(np.linalg.norm(a - b)) for a, b in zip(proj(kind, out_f), proj(kind, Cs)))
+            events.append(judge("scf/fixed-point-unchanged-with-foreign-rdm1", d_f, 1e-8, key + "/fixed-point-foreign-rdm1", n_opt_iter=n_it))
         # --- mildly perturbed start: same energy as the independent solver, if the independent undamped iteration gets there
         Cm, Em, resm, _ = solve(kind, h0, h, chol, na, nb, starts["mild"], damp=0.0, iters=30)
         if resm < 1e-10 and abs(Em - Es) < 1e-10:
